@@ -166,19 +166,48 @@ func cmdCheck(args []string) int {
 	var kfPrinted []string
 	violations := 0
 
+	// one engine per load configuration, shared by all units (loaded with the union of their packages)
+	engines := map[string]*Engine{}
+	engineErr := map[string]error{}
+	pkgUnion := map[string]map[string]bool{}
+	for _, u := range spec.Units {
+		if u.Tier == "thorough" && *tier != "thorough" {
+			continue
+		}
+		if pkgUnion[u.Config] == nil {
+			pkgUnion[u.Config] = map[string]bool{}
+		}
+		for _, p := range u.Pkgs {
+			pkgUnion[u.Config][p] = true
+		}
+	}
+	getEngine := func(cfgName string) (*Engine, error) {
+		if e, ok := engines[cfgName]; ok {
+			return e, engineErr[cfgName]
+		}
+		e, err := newEngine(*repo, cfgName, sortedKeys(pkgUnion[cfgName]))
+		if err == nil {
+			err = e.loadAllContracts(filepath.Join(*root, "contracts"))
+			if err != nil {
+				err = fmt.Errorf("contracts: %v", err)
+			}
+		}
+		engines[cfgName], engineErr[cfgName] = e, err
+		return e, err
+	}
 	for ui, u := range spec.Units {
 		if u.Tier == "thorough" && *tier != "thorough" {
 			continue
 		}
-		e, err := newEngine(*repo, u.Config, u.Pkgs)
+		e, err := getEngine(u.Config)
+		if err != nil && strings.HasPrefix(err.Error(), "contracts:") {
+			fmt.Fprintf(os.Stderr, "%v\n", err)
+			fmt.Printf("VIOLATION property=%s replay=%s contract-load-failed no-failing-input-found\n", *prop, writeReplay(replayDir, "contract-load-failed", map[string]interface{}{"error": err.Error()}))
+			return 1
+		}
 		if err != nil {
 			fmt.Fprintf(os.Stderr, "unit %d: load failed: %v\n", ui, err)
 			fmt.Printf("VIOLATION property=%s replay=%s load-failed no-failing-input-found\n", *prop, writeReplay(replayDir, "load-failed", map[string]interface{}{"error": err.Error()}))
-			return 1
-		}
-		if err := e.loadAllContracts(filepath.Join(*root, "contracts")); err != nil {
-			fmt.Fprintf(os.Stderr, "contracts: %v\n", err)
-			fmt.Printf("VIOLATION property=%s replay=%s contract-load-failed no-failing-input-found\n", *prop, writeReplay(replayDir, "contract-load-failed", map[string]interface{}{"error": err.Error()}))
 			return 1
 		}
 		var kindRe *regexp.Regexp
